@@ -420,7 +420,7 @@ func (ev *Evaluator) view(typeName string, key *Term) *ViewV {
 
 var smtFunRet = map[string]Sort{
 	"dmul": SDec, "dquo": SDec, "dmulint": SDec, "dquoint": SDec, "dofint": SDec, "dtrunc": SInt, "dtruncdec": SDec, "dabs": SDec,
-	"dpow": SDec, "dround": SInt, "tdiv": SInt, "tmod": SInt, "imin": SInt, "imax": SInt, "iabs": SInt,
+	"dpow": SDec, "dround": SInt, "dmultrunc": SDec, "dceil": SDec, "tdiv": SInt, "tmod": SInt, "imin": SInt, "imax": SInt, "iabs": SInt,
 	"ktag": SInt, "pfx": SBool, "krange": SBool, "sfx": SBool, "klt": SBool,
 	"acc_str": SStr, "val_str": SStr, "acc_of": SBytes, "val_of": SBytes, "acc_ok": SBool, "val_ok": SBool,
 	"modaddr": SBytes, "blocked": SBool, "denom_ok": SBool, "ismod": SBool,
